@@ -201,12 +201,26 @@ fn lib_read(img: &crate::disk::Image, slot: u8, path: &[[u8; 11]], want_len: u32
 
 fn lib_mounts(img: &crate::disk::Image, slot: u8) -> Result<(), String> {
     let clock = SimClock::new(0);
-    let ro = RoDisk::new(img);
+    let mut ro = RoDisk::new(img);
+    ro.cap = 2_000_000;
     let r = std::panic::catch_unwind(std::panic::AssertUnwindSafe(|| -> Result<(), String> {
         let fs = make_fs((4, 4, 1), &ro, &clock, 9);
         let v = fs.open_volume(slot as usize, 0).map_err(|e| format!("{:?}", e))?;
         let d = fs.open_root_dir(v, 0).map_err(|e| format!("{:?}", e))?;
-        fs.iterate(d, 0, &mut |_| {}).map_err(|e| format!("{:?}", e))?;
+        // the library itself must be able to list the root and every directory directly below it
+        let mut subs: Vec<embedded_sdmmc::ShortFileName> = Vec::new();
+        fs.iterate(d, 0, &mut |e| {
+            if e.attributes.is_directory() && !e.attributes.is_volume() && subs.len() < 8 {
+                subs.push(e.name.clone());
+            }
+        })
+        .map_err(|e| format!("{:?}", e))?;
+        for n in subs {
+            if let Ok(sd) = fs.open_dir(d, &Name::Sfn(n), 0) {
+                let _ = fs.iterate(sd, 0, &mut |_| {});
+                let _ = fs.close_dir(sd, 0);
+            }
+        }
         Ok(())
     }));
     match r {
